@@ -5,6 +5,8 @@ import OAuth2Model.Driver.AuthUrl
 import OAuth2Model.Driver.Pkce
 import OAuth2Model.Driver.UrlT
 import OAuth2Model.Driver.SecEq
+import OAuth2Model.Driver.Tok
+import OAuth2Model.Driver.Err
 
 def dispatch (line : String) : String :=
   match (line.trimAscii.toString.splitOn " ").filter (· ≠ "") with
@@ -21,6 +23,8 @@ def dispatch (line : String) : String :=
     | "rand" => Drv.PkceOp.runRand args
     | "url" => Drv.UrlOp.run args
     | "seceq" => Drv.SecEqOp.run args
+    | "tok" => Drv.TokOp.run args
+    | "err" => Drv.ErrOp.run args
     | _ => "bad-op"
 
 partial def loop (h : IO.FS.Stream) (out : IO.FS.Stream) : IO Unit := do
